@@ -273,6 +273,23 @@ def replay_histories(histories, driver, split_depth=2, procs=None, label=None):
     return acc
 
 
+def _read_all(fd):
+    chunks = []
+    while True:
+        b = os.read(fd, 1 << 16)
+        if not b:
+            break
+        chunks.append(b)
+    return b"".join(chunks)
+
+
+def _write_all(fd, data):
+    mv = memoryview(data)
+    while mv:
+        n = os.write(fd, mv)
+        mv = mv[n:]
+
+
 def run_isolated(fn, *args):
     """Run fn(*args) in a forked child, return its JSON-serialisable result."""
     r, w = os.pipe()
